@@ -1,7 +1,10 @@
 SOURCE_COMMITS = []
 NOTES = ("Contract-based deductive verification of the real pybads functions. pyvc (/verif/pyvc) re-reads /repo with ast on every run, "
          "symbolically executes each function under contract against sidecar contracts (/verif/contracts), replaces calls by callee contracts, "
-         "cuts loops at invariants, and discharges every obligation with z3. See DESIGN.md.")
+         "cuts loops at invariants, and discharges every obligation with z3. Clauses outside the verifier's reach are covered by bounded layers on the real code "
+         "(/verif/replay), always labelled bounded in the evidence. No hooks in /repo. 14 genuine defects were repaired by unguarded 'fix:' commits in /repo "
+         "(2943e63 b92e9dc c58bea9 151c6df 310536c 421b57a bf7cb7f 57b63e8 46e43a5 e9288ae 73aa55c 567fe06 a8832ee f5468cb); 5 findings are recorded in "
+         "known_findings.jsonl (C17 x1, C08 x3, C09 x1). See DESIGN.md (sections 8-12).")
 PROOF_NOTE = ("Proof relative to the trusted base listed in the evidence file (T1 pyvc, T2 mathematical ints/reals and scalar/1-element identification, "
               "T3 NumPy primitive models, T4 assumed gpyreg contracts, T5 well-behaved user callables, T6 solvers, T7 single thread, T8 inferred frames of "
               "uncontracted callees). Preconditions (the part of the option space covered) are listed per function in the evidence.")
